@@ -181,8 +181,11 @@ func (a *AST) Format(w io.Writer) {
 		case *ImportGroupStmt:
 			fw.NewLine()
 		case *ImportLiteralStmt:
-			if idx < len(a.Stmts)-1 {
-				_, ok := a.Stmts[idx+1].(*ImportLiteralStmt)
+			// statements that format to nothing are skipped above, look at the next
+			// one that is written, otherwise the blank line depends on a statement
+			// that is gone after the first formatting pass.
+			if next := a.nextFormattedStmt(idx); next != nil {
+				_, ok := next.(*ImportLiteralStmt)
 				if !ok {
 					fw.NewLine()
 				}
@@ -198,6 +201,17 @@ func (a *AST) Format(w io.Writer) {
 		case *CommentStmt:
 		}
 	}
+}
+
+// nextFormattedStmt returns the next statement after idx that is not skipped by Format.
+func (a *AST) nextFormattedStmt(idx int) Stmt {
+	for i := idx + 1; i < len(a.Stmts); i++ {
+		if a.Stmts[i].Format() != NilIndent {
+			return a.Stmts[i]
+		}
+	}
+
+	return nil
 }
 
 // FormatForUnitTest formats the AST for unit test.
